@@ -27,6 +27,7 @@ pub trait ActionContext {
     fn llm_query(&self, prompt: String, model: &Model) -> String;
     fn default_model(&self) -> &Model;
     fn patch(&self) -> Graph;
+    fn key_exists(&self, key: &Key) -> bool;
 }
 
 pub fn all_action_types(configuration: &Configuration) -> Vec<ActionEnum> {
@@ -535,6 +536,8 @@ impl ActionProvider for ReferenceInlineSection {
         let tree = context.collect(&key);
         Some(target_id)
             .filter(|target_id| tree.get(*target_id).is_reference())
+            .filter(|target_id| context.key_exists(&tree.reference_key(*target_id)))
+            .filter(|target_id| tree.get_surrounding_section_id(*target_id).is_some())
             .map(|_| Action {
                 title: "Inline section".to_string(),
                 identifier: self.identifier(),
@@ -547,6 +550,7 @@ impl ActionProvider for ReferenceInlineSection {
         let tree = context.collect(&key);
         Some(target_id)
             .filter(|target_id| tree.get(*target_id).is_reference())
+            .filter(|target_id| context.key_exists(&tree.reference_key(*target_id)))
             .and_then(|target_id| {
                 let inline_key = context.collect(&key).reference_key(target_id);
 
@@ -586,6 +590,7 @@ impl ActionProvider for ReferenceInlineQuote {
         let tree = context.collect(&key);
         Some(target_id)
             .filter(|target_id| tree.get(*target_id).is_reference())
+            .filter(|target_id| context.key_exists(&tree.reference_key(*target_id)))
             .map(|_| Action {
                 title: "Inline quote".to_string(),
                 identifier: self.identifier(),
@@ -599,6 +604,7 @@ impl ActionProvider for ReferenceInlineQuote {
 
         Some(target_id)
             .filter(|target_id| tree.get(*target_id).is_reference())
+            .filter(|target_id| context.key_exists(&tree.reference_key(*target_id)))
             .map(|reference_id| {
                 let inline_key = context.collect(&key).reference_key(reference_id);
 
@@ -739,6 +745,7 @@ impl ActionProvider for ReferenceInlineList {
                     .map(|n| n.is_reference())
                     .unwrap_or(false)
             })
+            .filter(|node_id| context.key_exists(&tree.reference_key(*node_id)))
             .map(|_| Action {
                 title: "Inline list".to_string(),
                 identifier: self.identifier(),
@@ -756,6 +763,7 @@ impl ActionProvider for ReferenceInlineList {
                     .map(|n| n.is_reference())
                     .unwrap_or(false)
             })
+            .filter(|node_id| context.key_exists(&tree.reference_key(*node_id)))
             .map(|reference_id| {
                 let inline_key = context.collect(&key).reference_key(reference_id);
 
